@@ -18,7 +18,7 @@ MANIFEST = dict(
          "point of the real stack (manager + locator + spa + facade on the virtual loop against the real simulator): the harness injects async_reset() / context exit "
          "exactly when the pump task's coroutine stack is at that point - exits with a client handler that returns at once AND with one that really suspends - lets the "
          "loop settle, and compares the ledger (transports never closed, tasks alive at the instant the exit returns and later, observers left, pump alive, handler "
-         "activity after the exit, callbacks on late datagrams) with the model's prediction. The crash-point table has one entry per suspension point of the regenerated skeletons of _connect and discover (crash_points_cover_every_suspension: two independent translators agree). Also: two commands of each kind in flight when the connection is reset / the context exited; task_registry_tracks_every_task. discover_releases_endpoint_on_every_exit and awaits_inside_finally_are_the_finished_announcements (all 58 coroutines). Prompt termination (2 s after every reset) and a reset issued by the client from inside its RF-error handler.",
+         "activity after the exit, callbacks on late datagrams) with the model's prediction. The crash-point table has one entry per suspension point of the regenerated skeletons of _connect and discover (crash_points_cover_every_suspension: two independent translators agree). Also: two commands of each kind in flight when the connection is reset / the context exited; task_registry_tracks_every_task. discover_releases_endpoint_on_every_exit and awaits_inside_finally_are_the_finished_announcements (all 58 coroutines). Prompt termination (2 s after every reset) and a reset issued by the client from inside its RF-error handler. Session 5: cancellation_ends_every_coroutine / cancellation_propagates - Model/Cancel.lean gives the skeletons Python's rule for which handler gets a CancelledError (first in source order that is bare / BaseException / CancelledError) and an inductive relation Cancelled sk o (a cancellation delivered at one of the awaits of sk makes it end with o); cancelOuts_sound proves the executable analysis, and all 58 regenerated coroutines end by the exception under every cancellation. Crash point added: a reset from another task while a consumer's callback (the client's handler of an RF error) is suspended.",
     note="partial: 'closed' = close() called on the transport object the loop handed out; await points inside the standard library are collapsed to the geckolib await that "
          "contains them; error-path await points of _connect that a healthy handshake never reaches are predicted by the model but not exercised; asyncio delivering a "
          "pending cancellation at the next suspending await is assumed.",
@@ -230,6 +230,13 @@ def explore_error(scenario, origin, yielding, settle=150.0):
             async def handle_event(self, event, **kw):
                 if yielding:
                     await asyncio.sleep(0)
+                if origin == "user-in-handler" and "ERROR_RF_ERROR" in str(event) and not res.get("handler_reset_done"):
+                    # the client's handler of an event delivered by one of the connection's own consumer tasks is SUSPENDED (it awaits
+                    # something of its own) when a reset arrives from another task: the cancellation lands inside the consumer's callback
+                    res["handler_reset_done"] = True
+                    loop.call_later(0.1, lambda: asyncio.ensure_future(self.async_reset()))
+                    await asyncio.sleep(0.5)
+                    res["handler_resumed_after_reset"] = True          # (only reached if the cancellation did not end the handler)
                 if origin == "handler" and "ERROR_RF_ERROR" in str(event) and not res.get("handler_reset_done"):
                     # the CLIENT resets from inside its handler of an event that one of the connection's own tasks delivers
                     res["handler_reset_done"] = True
@@ -286,6 +293,7 @@ def explore_error(scenario, origin, yielding, settle=150.0):
                 await m.async_reset()
         res["state_at_end"] = str(m.spa_state).split(".")[-1]
         res["pump_alive"] = not pump.done()
+        res.setdefault("handler_resumed_after_reset", False)
         first = res["resets"][0] if res["resets"] else None
         if first is not None:
             n_cb = len(callbacks)
@@ -433,7 +441,7 @@ def run(ctx):
                 ctx.violation(f"tasks-alive:exit:{proc}", dict(inp, kind="exit-slow-handler"), "every task terminates at context exit", xs["tasks_at_end"][:5])
     # ------------- resets in error states: the manager's own reset from inside the ping-loop task / a user reset, client handler yielding or not
     for sc in ERROR_SCENARIOS:
-        for origin in ("self", "user") + (("handler",) if sc == "rf-fault" else ()):
+        for origin in ("self", "user") + (("handler", "user-in-handler") if sc == "rf-fault" else ()):
             for yielding in (False, True):
                 e = explore_error(sc, origin, yielding)
                 ctx.count("evaluations")
@@ -458,7 +466,10 @@ def run(ctx):
                     ctx.violation(f"late-callback:error-reset:{tag}", inp, "late datagrams invoke no client observer", e["late_callbacks"])
                 if not e["pump_alive"]:
                     ctx.violation(f"pump-dead:error-reset:{tag}", inp, "the manager keeps working after a reset", "sequence pump finished")
-                if origin == "handler":
+                if origin in ("handler", "user-in-handler"):
+                    if origin == "user-in-handler" and e.get("handler_resumed_after_reset"):
+                        ctx.violation(f"handler-resumed:error-reset:{tag}", inp, "the consumer task that was delivering the event ends with the connection "
+                                      "(its suspended callback does not resume)", "the client handler resumed after the reset had cancelled its task")
                     continue
                 lines.append(f"errreset {origin} {int(yielding)}")
                 impl.append(show(e["endpoint_open"], e["tasks_alive"], e["observers_left"], e["pump_alive"]) + f" completed={int(e['reset_outcomes'][0] == 'returned')}")
